@@ -305,7 +305,10 @@ class ProfileEngine:
                                        "0,1", "x", "1,,2"]))
             seq.append(rng.choice(
                 ["1,2,4", "1,4", "1,2,4,5", "1,4,2", "1,4,3,2", "1,2,4,6",
-                 "1", "2,1,4", "1,4,3,5,6"]
+                 "1", "2,1,4", "1,4,3,5,6",
+                 # valid (every prerequisite is met) although a step comes
+                 # before one it would "optionally" follow: stored as typed
+                 "1,2,4,3", "6,1,2", "1,4,5,3", "6,1,4", "1,2,4,6,5"]
                 # selections that satisfy every prerequisite but do not
                 # compute the tip position (the batch fit needs that column
                 # unless the data bring it along)
